@@ -4,6 +4,8 @@ A scenario is a dict {"mode": "sem"|"cv"|"bar", <objects>, "scripts": [[token, .
 All durations are small integer multiples of the harness time unit (2^-10 s), so that releases/notifications and deadlines collide on
 exactly the same date, in the same scheduling round, or one round apart.
 """
+import os
+
 from verif import build, proc
 
 PLATFORM = "/repo/examples/platforms/small_platform.xml"
@@ -14,7 +16,7 @@ def header(sc):
         return "sem " + " ".join(map(str, sc["caps"]))
     if sc["mode"] == "cv":
         return "cv %d" % sc["ncv"]
-    return "bar " + " ".join(map(str, sc["sizes"]))
+    return "bar " + " ".join(map(str, sc["sizes"])) + (" nosweep" if sc.get("nosweep") else "")
 
 
 def stdin_of(scs):
@@ -33,7 +35,11 @@ def run_batch(flavour, scs, timeout=300):
     cmd = [exe(flavour), PLATFORM, "--log=root.thres:critical"]
     if flavour != "hooks":
         cmd.append("--cfg=contexts/factory:thread")
-    res = proc.run(cmd, stdin=stdin_of(scs), timeout=timeout)
+    env = {}
+    if flavour == "hooks" and os.environ.get("VERIF_SYNC_LIBDIR"):
+        # scratch runs only (mutation tests / trying a fix without touching /repo): a relinked copy of the hooks libsimgrid
+        env["LD_LIBRARY_PATH"] = os.environ["VERIF_SYNC_LIBDIR"]
+    res = proc.run(cmd, stdin=stdin_of(scs), timeout=timeout, env=env)
     outs = [[] for _ in scs]
     for l in res.out.splitlines():
         i, _, rest = l.partition(" ")
